@@ -342,8 +342,12 @@ def run_odd(rec, case):
         if srv in scen.HTTPB:
             # the same unusual requests as HTTP/1.1 bytes, where they can be
             # expressed that way
-            if odd in ('lowercase-method', 'no-host', 'chunked-body'):
+            if odd in ('lowercase-method', 'no-host'):
                 return
+            if odd == 'chunked-body':
+                if body is None:
+                    return
+                headers['content-length'] = None    # = a chunked upload
             for k, v in kw.pop('scope_extra_headers', []):
                 headers.setdefault(k.decode('latin-1'), [])
                 headers[k.decode('latin-1')].append(v.decode('latin-1'))
